@@ -9,18 +9,30 @@ import (
 // Elements are ints.  Comparators: lt, gt (strict total orders), klt, kgt (by key x/10 on
 // non-negative values: ties between elements with equal key).
 
+// heapComp: all comparators are closures of ONE function literal that differ only in what they captured (as the
+// method values of one method on different receivers do): a library that told comparators apart by their code
+// would take them for the same function.
 func heapComp(name string) func(a, b int) bool {
+	var div int
+	var desc bool
 	switch name {
 	case "lt":
-		return func(a, b int) bool { return a < b }
+		div, desc = 1, false
 	case "gt":
-		return func(a, b int) bool { return a > b }
+		div, desc = 1, true
 	case "klt":
-		return func(a, b int) bool { return a/10 < b/10 }
+		div, desc = 10, false
 	case "kgt":
-		return func(a, b int) bool { return a/10 > b/10 }
+		div, desc = 10, true
+	default:
+		panic("harness: bad comparator " + name)
 	}
-	panic("harness: bad comparator " + name)
+	return func(a, b int) bool {
+		if desc {
+			return a/div > b/div
+		}
+		return a/div < b/div
+	}
 }
 
 type heapRunner struct {
